@@ -49,6 +49,19 @@ class RINGToken(object):
         else:
             return eq(self.name, other)
 
+    # Python 3 ignores __cmp__: without these, token == 'Name' is always False.
+    def __eq__(self, other):
+        if isinstance(other, RINGToken):
+            return self.name == other.name
+        else:
+            return self.name == other
+
+    def __ne__(self, other):
+        return not self == other
+
+    def __hash__(self):
+        return hash(self.name)
+
     def __str__(self):
         return self.name
 
